@@ -771,3 +771,276 @@ Section Again.
     - now rewrite hlv_rr_seq.
   Qed.
 End Again.
+
+(* ---------- boolean equality of written blocks is equality ---------------------------------------------- *)
+
+Lemma list_eqb_eq_local {A} (eq : A -> A -> bool) a :
+  Forall (fun x => forall y, eq x y = true -> x = y) a -> forall b, list_eqb eq a b = true -> a = b.
+Proof.
+  induction 1 as [|x a Hx _ IH]; intros [|y b]; cbn [list_eqb]; try discriminate; [reflexivity|].
+  intros E. apply andb_prop in E as [E1 E2]. f_equal; auto.
+Qed.
+
+Lemma inline_eqb_go l m :
+  (fix go (x y : list inline) {struct x} : bool :=
+     match x, y with
+     | [], [] => true
+     | i :: x', j :: y' => inline_eqb i j && go x' y'
+     | _, _ => false
+     end) l m = list_eqb inline_eqb l m.
+Proof. revert m; induction l as [|i l IH]; intros [|j m]; try reflexivity. cbn [list_eqb]. now rewrite <- IH. Qed.
+
+Lemma link_type_eqb_eq a b : link_type_eqb a b = true -> a = b.
+Proof. destruct a, b; cbn; congruence. Qed.
+
+Lemma inline_eqb_eq : forall a b, inline_eqb a b = true -> a = b.
+Proof.
+  apply (inline_ind' (fun a => forall b, inline_eqb a b = true -> a = b)).
+  - intros s [] H; try discriminate. cbn in H. apply String.eqb_eq in H. now subst.
+  - intros s [] H; try discriminate. cbn in H. apply String.eqb_eq in H. now subst.
+  - intros s [] H; try discriminate. cbn in H. apply String.eqb_eq in H. now subst.
+  - intros l IH [] H; try discriminate. cbn [inline_eqb] in H. rewrite inline_eqb_go in H.
+    f_equal. now apply (list_eqb_eq_local inline_eqb l IH).
+  - intros l IH [] H; try discriminate. cbn [inline_eqb] in H. rewrite inline_eqb_go in H.
+    f_equal. now apply (list_eqb_eq_local inline_eqb l IH).
+  - intros l IH [] H; try discriminate. cbn [inline_eqb] in H. rewrite inline_eqb_go in H.
+    f_equal. now apply (list_eqb_eq_local inline_eqb l IH).
+  - intros u t lt l IH [] H; try discriminate. cbn [inline_eqb] in H. rewrite inline_eqb_go in H.
+    apply andb_prop in H as [H H4]. apply andb_prop in H as [H H3]. apply andb_prop in H as [H1 H2].
+    apply String.eqb_eq in H1, H2. apply link_type_eqb_eq in H3. subst.
+    f_equal. now apply (list_eqb_eq_local inline_eqb l IH).
+  - intros u t l IH [] H; try discriminate. cbn [inline_eqb] in H. rewrite inline_eqb_go in H.
+    apply andb_prop in H as [H H3]. apply andb_prop in H as [H1 H2].
+    apply String.eqb_eq in H1, H2. subst.
+    f_equal. now apply (list_eqb_eq_local inline_eqb l IH).
+Qed.
+
+Lemma inlines_eqb_eq a b : inlines_eqb a b = true -> a = b.
+Proof. apply list_eqb_eq. exact inline_eqb_eq. Qed.
+
+Lemma ostring_eqb_eq a b : ostring_eqb a b = true -> a = b.
+Proof.
+  destruct a, b; cbn; try discriminate; [|reflexivity]. intros H. apply String.eqb_eq in H. now subst.
+Qed.
+
+Lemma align_eqb_eq a b : align_eqb a b = true -> a = b.
+Proof. destruct a, b; cbn; congruence. Qed.
+
+Lemma gblock_eqb_go l m :
+  (fix go (x y : list gblock) {struct x} : bool :=
+     match x, y with
+     | [], [] => true
+     | i :: x', j :: y' => gblock_eqb i j && go x' y'
+     | _, _ => false
+     end) l m = list_eqb gblock_eqb l m.
+Proof. revert m; induction l as [|i l IH]; intros [|j m]; try reflexivity. cbn [list_eqb]. now rewrite <- IH. Qed.
+
+Lemma gblock_eqb_goi l m :
+  (fix goi (x y : list (list gblock)) {struct x} : bool :=
+     match x, y with
+     | [], [] => true
+     | i :: x', j :: y' =>
+         (fix go (x y : list gblock) {struct x} : bool :=
+            match x, y with
+            | [], [] => true
+            | i :: x', j :: y' => gblock_eqb i j && go x' y'
+            | _, _ => false
+            end) i j && goi x' y'
+     | _, _ => false
+     end) l m = list_eqb (list_eqb gblock_eqb) l m.
+Proof.
+  revert m; induction l as [|i l IH]; intros [|j m]; try reflexivity. cbn [list_eqb]. now rewrite <- IH, <- gblock_eqb_go.
+Qed.
+
+Lemma gblock_eqb_eq : forall a b, gblock_eqb a b = true -> a = b.
+Proof.
+  intros a. induction a as [l|l|la tx|bs IH|its IH|its IH|n l| |h al rows] using gblock_ind'; intros [] H; try discriminate.
+  - cbn in H. f_equal. now apply inlines_eqb_eq.
+  - cbn in H. f_equal. now apply inlines_eqb_eq.
+  - cbn in H. apply andb_prop in H as [H1 H2]. apply ostring_eqb_eq in H1. apply String.eqb_eq in H2. now subst.
+  - cbn [gblock_eqb] in H. rewrite gblock_eqb_go in H. f_equal. now apply (list_eqb_eq_local gblock_eqb bs IH).
+  - cbn [gblock_eqb] in H. rewrite gblock_eqb_goi in H. f_equal.
+    apply (list_eqb_eq_local (list_eqb gblock_eqb) its); [|exact H].
+    eapply Forall_impl; [|exact IH]. intros it Hit y. now apply list_eqb_eq_local.
+  - cbn [gblock_eqb] in H. rewrite gblock_eqb_goi in H. f_equal.
+    apply (list_eqb_eq_local (list_eqb gblock_eqb) its); [|exact H].
+    eapply Forall_impl; [|exact IH]. intros it Hit y. now apply list_eqb_eq_local.
+  - cbn in H. apply andb_prop in H as [H1 H2]. apply Nat.eqb_eq in H1. apply inlines_eqb_eq in H2. now subst.
+  - reflexivity.
+  - cbn in H. apply andb_prop in H as [H H3]. apply andb_prop in H as [H1 H2].
+    f_equal.
+    + apply (list_eqb_eq inlines_eqb inlines_eqb_eq). exact H1.
+    + apply (list_eqb_eq align_eqb align_eqb_eq). exact H2.
+    + apply (list_eqb_eq cells_eqb (list_eqb_eq inlines_eqb inlines_eqb_eq)). exact H3.
+Qed.
+
+(* ---------- C02: the block-level fixpoint ------------------------------------------------------------------ *)
+
+(* written blocks on which one more pass changes nothing, line by line: decidable *)
+Definition settled (ctx : titles) (dir : string) (o : opts) (g : list gblock) : bool :=
+  forallb (fun b => gblock_eqb (gagain ctx dir o b) b) g.
+
+Lemma settled_fixed ctx dir o g : settled ctx dir o g = true -> map (gagain ctx dir o) g = g.
+Proof.
+  unfold settled. induction g as [|b g IH]; [reflexivity|]. cbn [forallb map]. intros H.
+  apply andb_prop in H as [H1 H2]. f_equal; [now apply gblock_eqb_eq | now apply IH].
+Qed.
+
+(* one more pass over what was written for ANY tree: [gagain] of every written block *)
+Theorem second_pass_tree ctx o key t k :
+  reparse_safe o (project (key_parent key) t) = true ->
+  project (key_parent key) (tmap (norm_node ctx) (spec_tree key (rr_at o k (project (key_parent key) t))))
+  = map (gagain ctx (key_parent key) o) (project (key_parent key) t).
+Proof.
+  intros Hs. apply second_pass; [reflexivity | now apply (reparse_safe_gstruct o) | apply project_well_nested].
+Qed.
+
+Theorem fixpoint_blocks ctx o key t :
+  reparse_safe o (project (key_parent key) t) = true ->
+  settled ctx (key_parent key) o (project (key_parent key) t) = true ->
+  project (key_parent key) (tmap (norm_node ctx) (spec_tree key (rr o (project (key_parent key) t))))
+  = project (key_parent key) t.
+Proof.
+  intros Hs Hf. unfold rr. rewrite (second_pass_tree ctx o key t 0 Hs). now apply settled_fixed.
+Qed.
+
+Theorem fixpoint_text ctx o key t tables :
+  reparse_safe o (project (key_parent key) t) = true ->
+  settled ctx (key_parent key) o (project (key_parent key) t) = true ->
+  tree_to_markdown o tables (key_parent key) (tmap (norm_node ctx) (spec_tree key (rr o (project (key_parent key) t))))
+  = tree_to_markdown o tables (key_parent key) t.
+Proof. intros Hs Hf. unfold tree_to_markdown. now rewrite (fixpoint_blocks ctx o key t Hs Hf). Qed.
+
+(* ---------- non-vacuity: a note with nested lists, a quote, code, references ------------------------------ *)
+
+Definition ex_ctx : titles := fun k => if String.eqb k "d/a" then Some "Title A" else None.
+Definition ex_opts : opts := Opts ".md".
+Definition ex_key : string := "d/n".
+(* reader blocks of a source text (line ranges are irrelevant here) *)
+Definition ex_blocks : list dblock :=
+  [DHeader (0, 1) 1 [Str "Top"];
+   DPara (2, 3) [Str "alpha "; Emph [Str "beta"]; Str " "; Link "a.md" "" Regular [Str "old title"]; Str " "; Code "c"];
+   DPara (4, 5) [Link "a" "" Regular [Str "old"]];
+   DPara (6, 7) [Link "../x" "" WikiLink [Str "../x"]];
+   DBList [[DPara (8, 9) [Str "one"];
+            DOList [[DPara (9, 10) [Str "sub"]];
+                    [DPara (10, 11) [Str "sub two"]; DPara (12, 13) [Str "more"]; DRule (14, 15)]]];
+           [DPara (16, 17) [Str "two "; Strong [Str "bold"]]; DCode (17, 20) None "x
+y
+"]];
+   DQuote (21, 26) [DHeader (21, 22) 1 [Str "Q"]; DPara (23, 24) [Str "quoted"]; DBList [[DPara (25, 26) [Str "in quote"]]]];
+   DHeader (27, 28) 2 [Str "Sec"];
+   DCode (29, 32) (Some "rust") "fn
+";
+   DRule (33, 34)].
+Definition ex_tree : tree := tmap (norm_node ex_ctx) (spec_tree ex_key ex_blocks).
+Definition ex_written : list gblock := project (key_parent ex_key) ex_tree.
+
+Example ex_written_text :
+  tree_to_markdown ex_opts [] (key_parent ex_key) ex_tree =
+"# Top
+
+alpha *beta* [old title](a.md) `c`
+
+[Title A](a.md)
+
+[[../x]]
+
+- one
+  1.  sub
+
+  2.  sub two
+
+      more
+
+      ------------------------------------------------------------------------
+- two **bold**
+  ```
+  x
+  y
+  ```
+
+> # Q
+>
+> quoted
+>
+> - in quote
+
+## Sec
+
+``` rust
+fn
+```
+
+------------------------------------------------------------------------
+".
+Proof. vm_compute. reflexivity. Qed.
+
+Example ex_in_class :
+  reparse_safe ex_opts ex_written = true /\ settled ex_ctx (key_parent ex_key) ex_opts ex_written = true.
+Proof. split; vm_compute; reflexivity. Qed.
+
+(* the specification's answer for the example: blocks with the line ranges of the text above *)
+Example ex_rr :
+  rr ex_opts ex_written =
+  [DHeader (0, 1) 1 [Str "Top"];
+   DPara (2, 3) [Str "alpha "; Emph [Str "beta"]; Str " "; Link "a.md" "" Regular [Str "old title"]; Str " "; Code "c"];
+   DPara (4, 5) [Link "a.md" "" Regular [Str "Title A"]];
+   DPara (6, 7) [Link "../x" "" WikiLink [Str "../x"]];
+   DBList [[DPara (8, 9) [Str "one"];
+            DOList [[DPara (9, 10) [Str "sub"]];
+                    [DPara (11, 12) [Str "sub two"]; DPara (13, 14) [Str "more"]; DRule (15, 16)]]];
+           [DPara (16, 17) [Str "two "; Strong [Str "bold"]]; DCode (17, 20) None "x
+y
+"]];
+   DQuote (22, 27) [DHeader (22, 23) 1 [Str "Q"]; DPara (24, 25) [Str "quoted"]; DBList [[DPara (26, 27) [Str "in quote"]]]];
+   DHeader (28, 29) 2 [Str "Sec"];
+   DCode (30, 32) (Some "rust") "fn
+";
+   DRule (34, 35)].
+Proof. vm_compute. reflexivity. Qed.
+
+Example ex_fixpoint :
+  project (key_parent ex_key) (tmap (norm_node ex_ctx) (spec_tree ex_key (rr ex_opts ex_written))) = ex_written.
+Proof. apply fixpoint_blocks; apply ex_in_class. Qed.
+
+Example ex_levels : hlv (rr ex_opts ex_written) = [1; 2] /\ flat_map dctx (rr ex_opts ex_written) <> [].
+Proof. split; vm_compute; [reflexivity | discriminate]. Qed.
+
+(* not every first-pass output is settled: text left in two pieces by a soft break is re-read in one
+   piece (the written text is the same, the blocks are not) *)
+Example ex_unsettled :
+  let g := [GPara [Str "a"; Str " "; Str "b"]] in
+  reparse_safe ex_opts g = true /\ settled ex_ctx "" ex_opts g = false /\
+  map (gagain ex_ctx "" ex_opts) g = [GPara [Str "a b"]].
+Proof. repeat split; vm_compute; reflexivity. Qed.
+
+(* ---------- two clauses of [reparse_safe] are needed: what the REAL reader returned (observed with the
+   harness on the text the model writes for [g]; the inputs are in harness/corpus/NORM.jsonl) ------------- *)
+
+(* heading depth 7 (reachable after list -> sections): `####### x` is a paragraph to pulldown *)
+Definition depth7_written : list gblock := [GHeader 7 [Str "x"]].
+Definition depth7_observed : list dblock := [DPara (0, 1) [Str "####### x"]].
+Theorem reparse_depth7_refuted :
+  fst (blocks_md ex_opts LFS [] depth7_written) = "####### x" +++ LFS /\
+  reparse_safe ex_opts depth7_written = false /\
+  reparse_safe ex_opts [GHeader 6 [Str "x"]] = true /\
+  rr ex_opts depth7_written <> depth7_observed.
+Proof. repeat split; try (vm_compute; reflexivity). vm_compute. discriminate. Qed.
+
+(* a rule under the text of an item of a list written tight: a setext underline to pulldown *)
+Definition tightrule_written : list gblock := [GBList [[GPlain [Str "a"]; GRule]]].
+Definition tightrule_observed : list dblock := [DBList [[DHeader (0, 2) 2 [Str "a"]]]].
+Theorem reparse_tight_rule_refuted :
+  fst (blocks_md ex_opts LFS [] tightrule_written) = "- a" +++ LFS +++ "  " +++ srepeat "-" 72 +++ LFS /\
+  reparse_safe ex_opts tightrule_written = false /\
+  reparse_safe ex_opts [GBList [[GPara [Str "a"]; GPara [Str "b"]; GRule]]] = true /\
+  rr ex_opts tightrule_written <> tightrule_observed.
+Proof. repeat split; try (vm_compute; reflexivity). vm_compute. discriminate. Qed.
+
+Print Assumptions reparse_levels.
+Print Assumptions reparse_levels_nested.
+Print Assumptions reparse_conserves.
+Print Assumptions second_pass_tree.
+Print Assumptions fixpoint_blocks.
+Print Assumptions fixpoint_text.
